@@ -286,10 +286,22 @@ DecoderRejects ==
   /\ Rejected(<<34, 97, 34, 98>>)    \* '"a"b'
   /\ Rejected(<<65279, 49>>)    \* '\ufeff1'
 
+\* keys that need quoting / escaping as ANCESTORS of nested containers (table headers, nested
+\* mappings): three levels of objects, and an array of objects below two levels
+NestKeys == { <<>>, <<97>>, <<46>>, <<97, 46, 98>>, <<32>>, <<97, 32, 98>>, <<34>>, <<39>>, <<92>>, <<233>>,
+              <<128512>>, <<10>>, <<49>>, <<45>>, <<35>>, <<91>>, <<61>> }
+NestedKeyVals ==
+       { Obj(<<Fld(k, FALSE, Obj(<<Fld(<<105>>, FALSE, Obj(<<Fld(<<118>>, FALSE, IntV(2))>>))>>))>>) : k \in NestKeys }
+  \cup { Obj(<<Fld(<<111>>, FALSE, Obj(<<Fld(k, FALSE, Obj(<<Fld(<<118>>, FALSE, IntV(2))>>))>>))>>) : k \in NestKeys }
+  \cup { Obj(<<Fld(k, FALSE, Obj(<<Fld(k, FALSE, Obj(<<Fld(k, FALSE, Str(k))>>))>>))>>) : k \in NestKeys }
+  \cup { Obj(<<Fld(k, FALSE, Obj(<<Fld(<<105>>, FALSE, Arr(<<Obj(<<Fld(<<118>>, FALSE, IntV(2))>>),
+                                                                Obj(<<Fld(k, FALSE, Obj(<<>>))>>)>>))>>))>>) : k \in NestKeys }
+
 KeyAlphabet == { 48, 49, 55, 45, 95, 46, 101, 120, 98, 111, 97, 47 }      \* 0 1 7 - _ . e x b o a /
 KeyStrings == UNION { [1..n -> KeyAlphabet] : n \in 1..KeyLen }
 KeyVals == { Obj(<<Fld(k, FALSE, IntV(1))>>) : k \in YamlWords \cup KeyStrings }
            \cup { MkObj(<<Fld(<<121>>, FALSE, Str(k)), Fld(<<49>>, FALSE, Arr(<<Str(k)>>))>>) : k \in YamlWords }
+           \cup NestedKeyVals
 
 \* ------------------------------------------------------------------- model
 UniverseOf(mode) == CASE mode = "chars"  -> CharVals
